@@ -86,6 +86,11 @@ def run(tier, replay=None):
                 tag = "transport=%s form=%s" % (sc["transport"], sc["form"])
                 if rr["notif_mw"]:
                     run_.diverge(tag + " notification-in-chain", "a notification travelled through the middleware chain (%s)" % rr["other"], rp)
+                if sc["chain"]:
+                    for meth in ("ping", "resources/list"):
+                        if meth not in (rr["other"] or []):
+                            run_.diverge(tag + " request-bypasses-chain method=%s" % meth,
+                                         "a %s request was answered without entering the outermost middleware (methods the chain saw: %s)" % (meth, rr["other"]), rp)
                 for q in rr["reqs"]:
                     rp2 = dict(rp, observed=q)
                     if q["events"] != events:
